@@ -10,26 +10,26 @@ CHECK = {
     "min_nontrivial": {"quick": 500, "thorough": 5000},
     "stages": [
         {"name": "shim", "variant": "shim", "harness": "c13_parallel.cpp",
-         "cases": {"quick": 1600, "thorough": 40000},
-         "params": {"schedules": {"quick": 6, "thorough": 24}, "maxLen": {"quick": 140000, "thorough": 300007}},
+         "cases": {"quick": 1600, "thorough": 8000},
+         "params": {"schedules": {"quick": 6, "thorough": 12}, "maxLen": {"quick": 140000, "thorough": 300007}},
          "case_timeout": 300},
         {"name": "shimasan", "variant": "shimasan", "harness": "c13_parallel.cpp",
-         "cases": {"quick": 320, "thorough": 6000},
-         "params": {"schedules": {"quick": 3, "thorough": 8}, "maxLen": {"quick": 70000, "thorough": 140000}},
+         "cases": {"quick": 320, "thorough": 2000},
+         "params": {"schedules": {"quick": 3, "thorough": 6}, "maxLen": {"quick": 70000, "thorough": 140000}},
          "case_timeout": 300},
         {"name": "tbb", "variant": "tbb", "harness": "c13_parallel.cpp",
-         "cases": {"quick": 960, "thorough": 30000},
-         "params": {"schedules": {"quick": 3, "thorough": 6}, "maxLen": {"quick": 300007, "thorough": 300007}},
+         "cases": {"quick": 960, "thorough": 8000},
+         "params": {"schedules": {"quick": 3, "thorough": 4}, "maxLen": {"quick": 300007, "thorough": 300007}},
          "case_timeout": 300},
         {"name": "tsanshim", "variant": "tsanshim", "harness": "c13_parallel.cpp", "tsan_advisory_only": True,
-         "cases": {"quick": 240, "thorough": 6000}, "env": {"VSHIM_THREADS": "3"},
+         "cases": {"quick": 240, "thorough": 1500}, "env": {"VSHIM_THREADS": "3"},
          "params": {"schedules": 1, "maxLen": {"quick": 70000, "thorough": 140000}},
          "case_timeout": 600, "max_workers": 4},
         {"name": "conc", "variant": "asan", "harness": "c13_parallel.cpp",
-         "cases": {"quick": 6000, "thorough": 300000},
+         "cases": {"quick": 6000, "thorough": 100000},
          "params": {"mode": "conc"}, "case_timeout": 120, "max_workers": 5},
         {"name": "conctsan", "variant": "tsan", "harness": "c13_parallel.cpp",
-         "cases": {"quick": 3000, "thorough": 100000},
+         "cases": {"quick": 3000, "thorough": 30000},
          "params": {"mode": "conc"}, "case_timeout": 300, "max_workers": 5},
     ],
     "assumptions": ["the shim's schedules are legal oneTBB schedules (ported from the installed 2021.8 headers, DESIGN.md 2.2)",
